@@ -69,6 +69,36 @@ def contracts(p: Program) -> list[str]:
         ],
         raises=[],
     ))
+    GE = "eff_b(nsent() - 1, 'set[tuple[int, int]]')"
+    add(Contract(
+        'CouplingGraph.grid', params={'num_rows': 'int', 'num_cols': 'int'},
+        requires=['num_rows >= 1', 'num_cols >= 1'], returns='Any',
+        locals={'edges': 'set[tuple[int, int]]', 'num_qudits': 'int',
+                'i': 'int'},
+        ensures=[
+            "eff_kind(nsent() - 1, 'CouplingGraph.__init__')",
+            'nsent() == old(nsent()) + 1',
+            # exactly the right-hand and the downward neighbour of every cell
+            '''forall(lambda a: forall(lambda b:
+                 ((a, b) in %s) == (
+                   0 <= a and a < num_rows * num_cols and (
+                     (b == a + 1 and a %% num_cols != num_cols - 1)
+                     or (b == a + num_cols
+                         and a < (num_rows - 1) * num_cols))), 'int'), 'int')'''
+            % GE,
+        ],
+        raises=[],
+        loops={0: {'header': 'range(num_qudits)', 'invariant': [
+            'num_qudits == num_rows * num_cols',
+            'nsent() == old(nsent())',
+            '''forall(lambda a: forall(lambda b:
+                 ((a, b) in edges) == (
+                   0 <= a and a < _i and (
+                     (b == a + 1 and a % num_cols != num_cols - 1)
+                     or (b == a + num_cols
+                         and a < (num_rows - 1) * num_cols))), 'int'), 'int')''',
+        ]}},
+    ))
     return targets
 
 
